@@ -6,8 +6,13 @@ import SqlObjVerif.Lemmas.Expr
 function-built nodes, constants on either side, negative constants, empty and NULL-containing IN
 lists, and boolean subexpressions used as operands of comparisons / arithmetic — `E.b2i`, read by
 SQL as 1 / 0 / NULL); `d : String` over all dialect names; `P : Prec` over ALL assignments of binding powers to
-the binary operators (left and right), the prefix operators and `IN`; `r : Row` over all rows
-(columns hold `Option Int`).  `buildB` / `buildN` use the operator tables of `Extracted/Expr.lean`,
+the binary operators (left and right), the prefix operators and `IN`; `D : Dom` over ALL number
+domains (values with an embedding of the integers, a value per float literal, negation, partial
+arithmetic, comparisons and a truth test obeying `cmp o.flip y x = cmp o x y`, `-(↑n) = ↑(-n)`,
+`1` true, `0` false — SQLite's INTEGER/REAL values with IEEE arithmetic and real-vs-integer division
+are one such domain, `intDom` is the all-integer one); `r : Row D` over all rows (columns hold
+`Option D.V`).  Float constants are `E.fconst` (sign, literal number): what double the literal's text
+denotes is checked on the real code by the harness, not modelled.  `buildB` / `buildN` use the operator tables of `Extracted/Expr.lean`,
 so the statements are about what the current source emits.
 -/
 namespace SqlObjVerif.Expr
@@ -72,61 +77,61 @@ example : retag false [.lp, .lp, .word "-", .col 0, .rp, .word "-", .lp, .word "
 /-! ## the generated SQL denotes the source tree (three-valued logic kept) -/
 
 /-- SQLite-style value of the built syntax tree = three-valued value of the source tree -/
-theorem C03_tree_denotes (d : String) (e : BoolE) (r : Row) :
-    ev r (toT d (buildB e)) = .v ((evalB r e).map b2i) :=
-  ev_buildB r d e
+theorem C03_tree_denotes (D : Dom) (d : String) (e : BoolE) (r : Row D) :
+    ev D r (toT d (buildB e)) = .v ((evalB D r e).map (b2i D)) :=
+  ev_buildB D r d e
 
-theorem C03_tree_denotes_num (d : String) (e : NumE) (r : Row) :
-    ev r (toT d (buildN e)) = .v (evalN r e) :=
-  ev_buildN r d e
+theorem C03_tree_denotes_num (D : Dom) (d : String) (e : NumE) (r : Row D) :
+    ev D r (toT d (buildN e)) = .v (evalN D r e) :=
+  ev_buildN D r d e
 
 /-- denotation of parse(render(build e)) = denotation of e, for every table, dialect, tree and row -/
-theorem C03_denotation_preserved (P : Prec) (d : String) (e : BoolE) (r : Row) :
-    ∃ t, parse P (render d false (buildB e)) = some t ∧ ev r t = .v ((evalB r e).map b2i) :=
-  ⟨_, C03_parse_render P d e, ev_buildB r d e⟩
+theorem C03_denotation_preserved (D : Dom) (P : Prec) (d : String) (e : BoolE) (r : Row D) :
+    ∃ t, parse P (render d false (buildB e)) = some t ∧ ev D r t = .v ((evalB D r e).map (b2i D)) :=
+  ⟨_, C03_parse_render P d e, ev_buildB D r d e⟩
 
 /-- Used as a filter, the rendered expression (as read back by the parser) selects exactly the rows
     on which the source tree is TRUE under three-valued logic (not false, not unknown). -/
-theorem C03_filter_sound (P : Prec) (d : String) (e : BoolE) (r : Row) :
-    selected P d e r = true ↔ evalB r e = some true := by
+theorem C03_filter_sound (D : Dom) (P : Prec) (d : String) (e : BoolE) (r : Row D) :
+    selected D P d e r = true ↔ evalB D r e = some true := by
   simp only [selected, C03_parse_render, selects, ev_buildB, truth_b2i]
   simp
 
-example : evalB (fun c => if c = 0 then none else some 2)
+example : evalB intDom (fun c => if c = 0 then none else some (2 : Int))
     (.notin (.col 1) (items [some (.const 1), none])) = none := by decide
-example : selected ⟨fun _ => 1, fun _ => 1, fun _ => 0, 1⟩ "mysql"
-    (.orOp (.eqNone (.col 0)) (.cmp .lt (.col 0) (.const 0))) (fun c => if c = 0 then none else some 2) = true := by
+example : selected intDom ⟨fun _ => 1, fun _ => 1, fun _ => 0, 1⟩ "mysql"
+    (.orOp (.eqNone (.col 0)) (.cmp .lt (.col 0) (.const 0))) (fun c => if c = 0 then none else some (2 : Int)) = true := by
   decide
 
 /-- a boolean subexpression used as a number (`(a == None) == (b == None)`,
     `(a == None) + (b == None) >= 1`) is the SAME object; its value is 1 / 0 / NULL.  Together with
     `C03_parse_render` / `C03_filter_sound` (which quantify over trees containing `b2i`) this says a
     NULL test or comparison nested under `= < + - *` is neither captured nor re-valued. -/
-theorem C03_bool_as_number (d : String) (b : BoolE) (r : Row) :
-    buildN (.b2i b) = buildB b ∧ evalN r (.b2i b) = (evalB r b).map b2i ∧
-    ev r (toT d (buildN (.b2i b))) = .v ((evalB r b).map b2i) :=
-  ⟨rfl, rfl, ev_buildB r d b⟩
+theorem C03_bool_as_number (D : Dom) (d : String) (b : BoolE) (r : Row D) :
+    buildN (.b2i b) = buildB b ∧ evalN D r (.b2i b) = (evalB D r b).map (b2i D) ∧
+    ev D r (toT d (buildN (.b2i b))) = .v ((evalB D r b).map (b2i D)) :=
+  ⟨rfl, rfl, ev_buildB D r d b⟩
 
-example : selected ⟨fun _ => 1, fun _ => 1, fun _ => 0, 1⟩ "sqlite"
-    (.cmp .eq (.b2i (.eqNone (.col 0))) (.b2i (.eqNone (.col 1)))) (fun c => if c = 0 then none else some 2) = false
+example : selected intDom ⟨fun _ => 1, fun _ => 1, fun _ => 0, 1⟩ "sqlite"
+    (.cmp .eq (.b2i (.eqNone (.col 0))) (.b2i (.eqNone (.col 1)))) (fun c => if c = 0 then none else some (2 : Int)) = false
   ∧ render "sqlite" false (buildB (.cmp .eq (.b2i (.eqNone (.col 0))) (.b2i (.eqNone (.col 1))))) =
     [.lp, .lp, .lp, .col 0, .rp, .op .is, .null, .rp, .op .eq, .lp, .lp, .col 1, .rp, .op .is, .null, .rp, .rp] := by
   decide
 
 /-- `AND(e, e₁, …, eₙ)` (in whichever fold direction the source has) is the n-ary conjunction:
     false if some argument is false, else unknown if some is unknown, else true; `OR` dually -/
-theorem C03_andN_sem (r : Row) (e : BoolE) (es : List BoolE) :
-    evalB r (andN e es) = all3 ((e :: es).map (evalB r)) :=
-  evalB_foldFn_and _ r e es
+theorem C03_andN_sem (D : Dom) (r : Row D) (e : BoolE) (es : List BoolE) :
+    evalB D r (andN e es) = all3 ((e :: es).map (evalB D r)) :=
+  evalB_foldFn_and D _ r e es
 
-theorem C03_orN_sem (r : Row) (e : BoolE) (es : List BoolE) :
-    evalB r (orN e es) = any3 ((e :: es).map (evalB r)) :=
-  evalB_foldFn_or _ r e es
+theorem C03_orN_sem (D : Dom) (r : Row D) (e : BoolE) (es : List BoolE) :
+    evalB D r (orN e es) = any3 ((e :: es).map (evalB D r)) :=
+  evalB_foldFn_or D _ r e es
 
 /-- the disjunction-of-equalities reading of `x IN (…)` used for the parsed text is the textbook
     one used for source trees (empty list: false; NULL item: unknown unless matched) -/
-theorem C03_in_sem (x : Option Int) (ys : List (Option Int)) : in3 x ys = inSpec x ys :=
-  in3_eq_inSpec x ys
+theorem C03_in_sem (D : Dom) (x : Option D.V) (ys : List (Option D.V)) : in3 D x ys = inSpec D x ys :=
+  in3_eq_inSpec D x ys
 
 /-! ## `== None` is IS NULL, never `= NULL` -/
 
@@ -159,7 +164,7 @@ example : hasEqNull [Tok.lp, Tok.col 0, Tok.op .eq, Tok.null, Tok.rp] = true := 
     wrapped in its own parentheses -/
 theorem C03_negative_constant_wrapped (d : String) (n : Nat) :
     wrapS (render d false (buildN (.const (-(n + 1 : Nat))))) =
-      [Tok.lp, Tok.pre .neg, Tok.num (n + 1), Tok.rp] := by
+      [Tok.lp, Tok.pre .neg, Tok.num (.int (n + 1)), Tok.rp] := by
   have h : (-((n + 1 : Nat) : Int)) < 0 := by omega
   have h2 : (-((n + 1 : Nat) : Int)).natAbs = n + 1 := by omega
   simp only [buildN, build, render, h, if_true, h2, wrapS]
@@ -167,12 +172,23 @@ theorem C03_negative_constant_wrapped (d : String) (n : Nat) :
 
 /-- whatever the binding power of unary minus, what is read back under a unary minus / plus is
     exactly its operand, and the value is the negated value -/
-theorem C03_unary_minus_no_capture (P : Prec) (d : String) (x : NumE) (r : Row) :
+theorem C03_unary_minus_no_capture (D : Dom) (P : Prec) (d : String) (x : NumE) (r : Row D) :
     parse P (render d false (buildN (.neg x))) = some (.un .neg (toT d (buildN x))) ∧
-    ev r (.un .neg (toT d (buildN x))) = .v ((evalN r x).map (fun a => -a)) := by
+    ev D r (.un .neg (toT d (buildN x))) = .v ((evalN D r x).map D.neg) := by
   constructor
   · rw [C03_parse_render_num]; rfl
-  · have := ev_buildN r d (.neg x)
+  · have := ev_buildN D r d (.neg x)
     simpa [buildN, build, toT, Extracted.negOp, evalN, eval] using this
+
+/-- a float constant — positive or negative, wherever it stands — is its literal (under a unary
+    minus when negative), wrapped in its own parentheses as an operand, recovered by the parser under
+    every table, and valued as the constant in every number domain -/
+theorem C03_float_constant (D : Dom) (P : Prec) (d : String) (neg : Bool) (i : Nat) (r : Row D) :
+    wrapS (render d false (buildN (.fconst neg i))) =
+      (if neg then [Tok.lp, Tok.pre .neg, Tok.num (.flt i), Tok.rp] else [Tok.lp, Tok.num (.flt i), Tok.rp]) ∧
+    parse P (render d false (buildN (.fconst neg i))) = some (toT d (buildN (.fconst neg i))) ∧
+    ev D r (toT d (buildN (.fconst neg i))) = .v (some (if neg then D.neg (D.flt i) else D.flt i)) := by
+  refine ⟨?_, C03_parse_render_num P d _, ev_buildN D r d _⟩
+  cases neg <;> simp [buildN, build, render, wrapS]
 
 end SqlObjVerif.Expr
